@@ -85,3 +85,5 @@
 ; fs.ModeType = ModeDir | ModeSymlink | ModeNamedPipe | ModeSocket | ModeDevice | ModeCharDevice | ModeIrregular
 (define-fun modeBit ((m Int) (k Int)) Bool (= (mod (div m k) 2) 1))
 (define-fun modeRegular ((m Int)) Bool (and (not (modeBit m 2147483648)) (not (modeBit m 134217728)) (not (modeBit m 33554432)) (not (modeBit m 16777216)) (not (modeBit m 67108864)) (not (modeBit m 2097152)) (not (modeBit m 524288))))
+; ValidSubPath(s): normalizeSubpath succeeds
+(define-fun ValidSubPathSpec ((s String)) Bool (or (= s "") (and (validPath s) (not (= (Clean s) ".")))))
